@@ -4,6 +4,7 @@ From Coq Require Import NArith ZArith List Bool Arith Lia.
 From Snap.Array Require Import ArrayDefs.
 From Snap.Fix Require Import FixModel.
 Import ListNotations.
+Local Opaque JBASE.
 
 (* ---------------------------------------------------------------------------------------------------------- *)
 (* vectors                                                                                                      *)
@@ -167,6 +168,8 @@ Proof.
         split; [constructor; exact H1 | simpl; lia].
       * destruct (IH _ _ Hin) as [H1 H2]. split; [constructor; exact H1 | exact H2].
 Qed.
+Lemma filter_len_le {A} (P : A -> bool) l : length (filter P l) <= length l.
+Proof. induction l as [|x t IH]; simpl; [lia|]. destruct (P x); simpl; lia. Qed.
 Lemma subseq_In {A} (s l : list A) x : subseq s l -> In x s -> In x l.
 Proof. induction 1; simpl; intros; try contradiction; intuition. Qed.
 Lemma subseq_filter {A} (P : A -> bool) l : subseq (filter P l) l.
@@ -265,24 +268,30 @@ Section Repair.
              rewrite Hw by (auto using InF).
              destruct ip as [|l0 ipt]; [discriminate|]. simpl in Eu. injection Eu as E0 _.
              apply (Hr l0 w e E0 He). rewrite <- Hw by (auto using InF). apply EH. exact He.
-          -- exfalso. specialize (C (fe_idx e) (InF e He) Hi). rewrite (Hj e _ He C) in EH by exact He.
+          -- exfalso. specialize (C (fe_idx e) (InF e He) Hi).
              specialize (EH e He). rewrite (Hj e _ He C) in EH. discriminate.
         * (* rejected: it was not an all-good combination *)
-          apply IH; auto.
-          -- apply agree_out_spec. intros i Hi. rewrite Hout by exact Hi. rewrite agree_out_spec in Hag. apply Hag. exact Hi.
-          -- intros x Hx. apply Hne. right. exact Hx.
-          -- exists gip. split; [|exact Hgood]. destruct Hgin as [E|Hin]; [|exact Hin]. subst gip. exfalso.
-             assert (Hall : forall p, In p (map (fun l => nth l rec PNone) ip) -> exists v', p = PEnc v' /\ veq v v' = true).
-             { intros p Hp. apply in_map_iff in Hp. destruct Hp as [l [El Hl]]. specialize (Hgood l Hl).
-               unfold good_level, par_matches in Hgood. rewrite El in Hgood. destruct p as [v'|t|]; try discriminate. eauto. }
-             assert (Hnn : map (fun l => nth l rec PNone) ip <> []).
-             { specialize (Hne ip (or_introl eq_refl)). destruct ip; [congruence | discriminate]. }
-             destruct (reconstruct_good F _ buf jn v Hnn Hall Hag) as [_ Hres]. rewrite ER in Hres. simpl in Hres.
-             assert (EH' : hash_matching hashf padz bs fm buf' = true).
-             { apply (hash_matching_true fm buf' buf' Hok'). intros e He.
-               rewrite Hres by (apply (fo_idx _ _ Hok); exact He).
-               assert (Em : memn (fe_idx e) F = true) by (apply memn_spec; auto). rewrite Em. apply Hhv. exact He. }
-             congruence.
+          assert (Hag' : agree_out F v buf' = true).
+          { apply agree_out_spec. intros i Hi. rewrite Hout by exact Hi. rewrite agree_out_spec in Hag. apply Hag. exact Hi. }
+          assert (Hne' : forall x, In x rest -> x <> []) by (intros x Hx; apply Hne; right; exact Hx).
+          assert (Hex : exists ip0, In ip0 rest /\ forall l, In l ip0 -> good_level v rec l = true).
+          { exists gip. split; [|exact Hgood]. destruct Hgin as [E|Hin]; [|exact Hin]. subst gip. exfalso.
+            assert (Hall : forall p, In p (map (fun l => nth l rec PNone) ip) -> exists v', p = PEnc v' /\ veq v v' = true).
+            { intros p Hp. apply in_map_iff in Hp. destruct Hp as [l [El Hl]]. specialize (Hgood l Hl).
+              unfold good_level, par_matches in Hgood. rewrite El in Hgood. destruct p as [v'|t|]; try discriminate. eauto. }
+            assert (Hnn : map (fun l => nth l rec PNone) ip <> []).
+            { specialize (Hne ip (or_introl eq_refl)). destruct ip; [congruence | discriminate]. }
+            destruct (reconstruct_good F _ buf jn v Hnn Hall Hag) as [_ Hres]. rewrite ER in Hres. simpl in Hres.
+            assert (EH' : hash_matching hashf padz bs fm buf' = true).
+            { apply (hash_matching_true fm buf' buf' Hok'). intros e He.
+              rewrite Hres by (apply (fo_idx _ _ Hok); exact He).
+              assert (Em : memn (fe_idx e) F = true) by (apply memn_spec; auto). rewrite Em. apply Hhv. exact He. }
+            congruence. }
+          destruct (IH buf' jn' (S err) (tags ++ [(K_PAR_TRY, N.of_nat pos :: 1%N :: map N.of_nat ip)]) Hok' Hhv Hj Hr Hag' Hne' Hex)
+            as [b2 [j2 [e2 [t2 [E2 [R1 R2]]]]]].
+          exists b2, j2, e2, t2. split; [exact E2|]. split; [congruence|].
+          intros i Hi. rewrite R2 by (rewrite Hlen; exact Hi).
+          destruct (memn i F) eqn:Em; [reflexivity|]. apply Hout. apply memn_false. exact Em.
   Qed.
 
   Variable nlev : nat.
@@ -314,7 +323,7 @@ Section Repair.
     { apply Nat.eqb_eq in E0. destruct fm; [destruct (fo_ne _ _ Hok); reflexivity | discriminate]. }
     rewrite (has_hash_ok _ _ Hok).
     assert (Hle : (length fm <=? nlev) = true).
-    { apply Nat.leb_le. etransitivity; [exact Hn|]. etransitivity; [apply filter_length_le|]. rewrite seq_length. lia. }
+    { apply Nat.leb_le. etransitivity; [exact Hn|]. etransitivity; [apply filter_len_le|]. rewrite seq_length. lia. }
     rewrite Hle. simpl.
     destruct (try_combos_good pos fm rec v (combos (seq 0 nlev) (length fm)) buf jn 0 [] Hok Hhv Hj Hr Hag) as [buf' [jn' [err' [tags' [E R]]]]].
     - intros ip Hip. apply combos_sound in Hip. destruct Hip as [_ Hl]. apply Nat.eqb_neq in E0. destruct ip; [simpl in Hl; congruence | discriminate].
@@ -376,16 +385,16 @@ Section RepairAll.
                (forall e, In e l -> In e failed) -> (forall e, In e fm0 -> In e failed) ->
                length b0 = length buf ->
                agree_out (map fe_idx (fm0 ++ l)) v b0 = true ->
-               let r := fold_left g l (fm0, b0) in
-               (forall e, In e (fst r) -> In e failed) /\ length (snd r) = length buf
-               /\ agree_out (map fe_idx (fst r)) v (snd r) = true /\ length (fst r) <= length fm0 + length l).
+               (forall e, In e (fst (fold_left g l (fm0, b0))) -> In e failed) /\ length (snd (fold_left g l (fm0, b0))) = length buf
+               /\ agree_out (map fe_idx (fst (fold_left g l (fm0, b0)))) v (snd (fold_left g l (fm0, b0))) = true
+               /\ length (fst (fold_left g l (fm0, b0))) <= length fm0 + length l).
     { induction l as [|e t IH]; intros fm0 b0 Hl Hf0 Hlen Hag0; simpl.
       - rewrite app_nil_r in Hag0. repeat split; auto. lia.
       - assert (He : In e failed) by (apply Hl; left; reflexivity).
         destruct (Hblk e He) as [Hb [Ho [Hst Hidx]]].
         unfold g at 2. rewrite Hb. unfold fe_updated_hash. rewrite Hst. simpl.
         destruct (search_fetch hashf bs nosearch fs0 e) as [x|] eqn:Es.
-        + assert (Ex : x = vnth v (fe_idx e)) by (apply (Hs e x He Es)). subst x.
+        + assert (Ex : x = vnth v (fe_idx e)) by (apply (Hs e x He Es)). subst x. cbn [fst snd].
           edestruct (IH fm0 (set_buf b0 (fe_idx e) (vnth v (fe_idx e)))) as [A [B [C D]]].
           * intros e' He'. apply Hl. right. exact He'.
           * exact Hf0.
@@ -405,13 +414,13 @@ Section RepairAll.
                ++ apply Hi. rewrite map_app. apply in_or_app. left. exact Hin.
                ++ subst i. rewrite Hlen in Hil. lia.
                ++ apply Hi. rewrite map_app. apply in_or_app. right. exact Hin.
-          * repeat split; auto. simpl in D. lia.
-        + edestruct (IH (fm0 ++ [e]) b0) as [A [B [C D]]].
+          * repeat split; auto. Show. simpl length. lia.
+        + cbn [fst snd]. edestruct (IH (fm0 ++ [e]) b0) as [A [B [C D]]].
           * intros e' He'. apply Hl. right. exact He'.
           * intros e' He'. apply in_app_or in He'. destruct He' as [He'|[He'|[]]]; [auto | subst; auto].
           * exact Hlen.
           * rewrite <- app_assoc. exact Hag0.
-          * repeat split; auto. rewrite app_length in D. simpl in D. lia. }
+          * repeat split; auto. rewrite app_length in D. simpl length in *. lia. }
     unfold repair. destruct failed as [|e1 ft'] eqn:Efailed2; [discriminate|]. rewrite <- Efailed2 in *.
     fold g.
     specialize (Hfold failed [] buf (fun e H => H) (fun e H => match H with end) eq_refl Hag).
